@@ -942,7 +942,8 @@ def queue_put_retries_until_done(ctx, rule):
                 f'{f.name}: after queue.Full the producer can move on without the chunk having been queued: the chunk is in the table but is never uploaded and its ranges are never recorded '
                 '(the snapshot references an object that was not stored / files lose ranges)',
             )
-    ctx.floor(rule, 'queue put with a Full handler in snapshot', n)
+    # (a producer that blocks in put() without a time-out has no Full handler and drops nothing: no floor here)
+    ctx.count('queue_put_full_handlers', n)
 
 
 def is_within_(a, root):
